@@ -31,6 +31,7 @@ from ..util import (
     check_if_func_is_non_reduce,
 )
 from . import numba as numba_funcs
+from .. import _verif
 from .factorization import (
     factorize_1d,
     factorize_2d,
@@ -594,6 +595,8 @@ class GroupBy:
         """
         Between 1 and 4 threads depending on length of inputs
         """
+        if _verif.ACTIVE:
+            return min(4, 1 + len(self) // _verif.ROWS_PER_THREAD)
         return min(4, 1 + len(self) // 1_000_000)
 
     def _preprocess_arguments(
